@@ -9,6 +9,7 @@ import Amgcl.Proofs.SolverGMRESIndep
 import Amgcl.Proofs.SolverFGMRESIndep
 import Amgcl.Proofs.SolverLGMRESIndep
 import Amgcl.Proofs.SolverIDRsIndep
+import Amgcl.Proofs.SolverBiCGStabLIndep
 import Mathlib.Algebra.Order.Field.Rat
 /-!
 # C15 — solver objects are reusable; calls do not leak state  (CG, BiCGStab, Richardson, preonly)
@@ -309,6 +310,46 @@ theorem idrs_converged_guess_unchanged (prm : IDRs.Params K) (ip : Vec K → Vec
     (hconv : ¬ IDRs.epsTol prm nf < nrmA ip sqrt (residual f A x0)) :
     (IDRs.run prm ip sqrt eps A Prec Pv ws f x0).obs = (.ok (0, nrmA ip sqrt (residual f A x0) / nf), x0) :=
   IDRs.run_converged_guess prm ip sqrt eps A Prec Pv ws f x0 nf hp hconv
+
+
+/-! ### BiCGStab(L): `Rt, X, B, T, R[0..L], U[0..L], MZa, MZb, Y0, YL` and the `QR` object's `tau, f` — `B, R[0], Rt, X, U[0]`
+are set on entry, `U[i], R[i]` (`1 ≤ i ≤ j`) are written by `preconditioner::spmv` earlier in the SAME pass (and in the
+very first step `beta = 0`, so `axpby(1, R[i], −beta, U[i])` does not read `U[i]`), `MZa` is rebuilt from `R[0..L]`,
+`MZb` copied, `QR.solve` overwrites `tau[0..k)`, `f[0..rows)` and the solution cells before reading them; including
+the three exception paths. -/
+
+theorem bicgstabl_out_indep_ws (prm : BiCGStabL.Params K) (ip : Vec K → Vec K → K) (sqrt : K → K) (eps c07 : K)
+    (A : CRS K) (P : Vec K → Vec K) (ws ws' : BiCGStabL.Work K) (f x0 : Vec K) :
+    (BiCGStabL.run prm ip sqrt eps c07 A P ws f x0).obs = (BiCGStabL.run prm ip sqrt eps c07 A P ws' f x0).obs :=
+  BiCGStabL.run_obs_indep prm ip sqrt eps c07 A P ws ws' f x0
+
+theorem bicgstabl_history_eq_fresh (prm : BiCGStabL.Params K) (ip : Vec K → Vec K → K) (sqrt : K → K) (eps c07 : K)
+    (w w0 : BiCGStabL.Work K) (cs : List (Call K)) :
+    history (BiCGStabL.call prm ip sqrt eps c07) w cs
+      = cs.map (fun c => (BiCGStabL.call prm ip sqrt eps c07 w0 c).1) :=
+  BiCGStabL.history_eq_fresh prm ip sqrt eps c07 w w0 cs
+
+theorem bicgstabl_zero_rhs (prm : BiCGStabL.Params K) (ip : Vec K → Vec K → K) (sqrt : K → K) (eps c07 : K)
+    (A : CRS K) (P : Vec K → Vec K) (ws : BiCGStabL.Work K) (f x0 : Vec K) (hf : nrm ip sqrt f < eps)
+    (hns : prm.nsSearch = false) :
+    BiCGStabL.run prm ip sqrt eps c07 A P ws f x0 = (.ok (0, nrm ip sqrt f), vclear x0.size, ws) :=
+  BiCGStabL.run_zero_rhs prm ip sqrt eps c07 A P ws f x0 hf hns
+
+/-- BiCGStab(L) has no entry test; a converged guess fails the loop guard `zeta >= eps` at once and the code then
+executes `done:` — it returns `x₀ + 0` (left) resp. `x₀ + P(0)` (right), which is `x₀` when `P 0 = 0` (every linear
+`P`) and `x₀` has the system's length. -/
+theorem bicgstabl_converged_guess_unchanged (prm : BiCGStabL.Params K) (ip : Vec K → Vec K → K) (sqrt : K → K)
+    (eps c07 : K) (A : CRS K) (P : Vec K → Vec K) (ws : BiCGStabL.Work K) (f x0 : Vec K) (nf : K)
+    (hp : prologue prm.nsSearch ip sqrt eps f = .go nf)
+    (hconv : nrm ip sqrt (BiCGStab.Rf prm.pside P f A x0) < BiCGStabL.epsTol prm nf)
+    (hx0 : x0.size = (BiCGStab.Rf prm.pside P f A x0).size)
+    (hP0 : P (vclear (BiCGStab.Rf prm.pside P f A x0).size) = vclear (BiCGStab.Rf prm.pside P f A x0).size) :
+    (BiCGStabL.run prm ip sqrt eps c07 A P ws f x0).obs
+      = (.ok (0, nrm ip sqrt (BiCGStab.Rf prm.pside P f A x0) / nf), x0) := by
+  have h1 := (BiCGStabL.run_converged_guess prm ip sqrt eps c07 A P ws f x0 nf hp hconv).1
+  have h2 := BiCGStabL.run_converged_guess_x prm ip sqrt eps c07 A P ws f x0 nf hp hconv hx0 hP0
+  simp only [Run.obs, Run.out, Run.x] at *
+  rw [h1, h2]
 
 
 /-! ### zero right-hand side (`‖f‖ < eps(1)`, `ns_search` off): `x = 0`, zero iterations, the work arrays untouched -/
